@@ -58,7 +58,7 @@ def gen_scenarios(seed_, n):
             peer = "p%d" % r.randrange(1, 4)
             floor_len = 24 if kind == "hb" else 7
             mut = r.choice(["valid", "valid", "sigflip", "payloadflip", "addrflip", "outsider", "wrongmember", "otherprefix",
-                            "noprefix", "below", "at", "crosstype", "noparse", "err", "shape"])
+                            "noprefix", "below", "at", "crosstype", "noparse", "err", "shape", "inner", "inner"])
             if mut == "valid":
                 steps.append(env(kind, c, peer, plen=r.choice([floor_len, floor_len + 1, 40, 100])))
             elif mut == "sigflip":
@@ -83,6 +83,9 @@ def gen_scenarios(seed_, n):
                 steps.append(env(kind, c, peer, parses=False, plen=r.choice([floor_len, 40])))
             elif mut == "err":
                 steps.append(env(kind, c, peer, signer="ERR"))
+            elif mut == "inner":
+                # a genuine heartbeat of c whose body names somebody else (another member, an outsider, c itself)
+                steps.append(env("hb", c, peer, inner=r.choice(everyone), plen=r.choice([60, 100])))
             else:
                 e = env(kind, c, peer, shape=r.choice(["niladdr", "shortaddr"]))
                 e["a"]["e"]["claimed"] = "JUNKADDR"
@@ -94,6 +97,13 @@ def gen_scenarios(seed_, n):
                 steps.append(env("hb", g, "q%d" % k))
             steps.append(env("hb", g, "q3"))
             steps.append(env("hb", r.choice(A["keys"] if not changed else keysB), "q20"))
+        # one member signs heartbeats that name another member in the body, from many peers: the other member's
+        # share of the table must stay untouched and its own heartbeat must still be taken
+        if r.random() < 0.3 and len(A["keys"]) >= 2 and not changed:
+            a, b = r.sample(A["keys"], 2)
+            for k in range(1, 17):
+                steps.append(env("hb", a, "z%d" % k, inner=b, plen=100))
+            steps.append(env("hb", b, "z40"))
         res.append({"steps": steps, "src": "gen-gossip"})
     return res
 
